@@ -3,18 +3,25 @@
 1. design check + generation: TLC explores the joint machine of Fit.tla (documented
    semantics, code-shaped transcription of covmodel/fit.py, optimiser = adversary) for every
    configuration (selection x sill mode x anis mode x bounds x isotropic/directional/lat-lon)
-   and checks the invariants of the documented semantics.  The end states carry the set of
-   admissible outcomes (`iends`), the outcome of the transcription (`cend`) and their
-   difference (`disc`).
+   and checks the invariants of the documented semantics (IdealSound, IdealPreLegal) and
+   LastEvalDecides.  The end states carry the set of admissible outcomes (`iends`), the outcome
+   of the transcription (`cend`) and their difference (`disc`).
 2. adversary on the real code: every dumped behaviour (evaluation vectors, returned optimum)
    is executed through the real `model.fit_variogram` with `gstools.covmodel.fit.curve_fit`
    replaced by an optimiser that evaluates the closure at exactly these vectors and returns
    exactly this optimum.  The real outcome must be one of TLC's admissible outcomes
    (VIOLATION otherwise); a difference to the transcription is DRIFT.
-3. real optimiser: every configuration TLC enumerated is run through the real scipy
-   optimiser on exact synthetic data (numeric options cycled); the clauses of the property are
-   checked with TLC's preprocessing outcome, and the recorded curve_fit traffic is validated
-   by TraceFit.tla on fixed-point images of the floats.  r2 / parameter errors are auxiliary.
+3. real optimiser: every configuration TLC enumerated is run once through the real scipy
+   optimiser on exact synthetic data of the same model family (init_guess x weights x method x
+   loss cycled); the clauses of the property are checked with TLC's preprocessing outcome, and
+   the recorded curve_fit traffic is validated by TraceFit.tla on fixed-point images of the
+   floats.  r2 / parameter errors are auxiliary numbers.
+
+Violation signatures: <observable>:<std|TPL>[:<sill|nosill>:<var-fitted|var-not-fitted>]
+(observable = sill-identity | untouched:<arg> | fitted:<arg> | dict:<arg> | bounds:<arg> |
+error:spurious[:<arg>-bounds] | error:missing | error:in-box | accepted:out-of-bounds).
+`./check C10 --replay <file>` re-executes a recorded case and prints the real outcome.
+VERIF_ONLY=<job,...> restricts the jobs (development aid).
 """
 PROPERTIES = ("C10",)
 
@@ -689,10 +696,6 @@ def impl_diff(c, cend, call):
 _W = {}
 
 
-def _worker_init(blocks_by_job, jobs, tier):
-    _W["blocks"], _W["jobs"], _W["tier"] = blocks_by_job, jobs, tier
-
-
 class _Collect:
     def __init__(self):
         self.violations, self.drift = [], []
@@ -863,6 +866,14 @@ def check_scipy_run(c, ialts, call):
             bad = [(n, v) for n, v in zip(names, args) if not _inb(c["bnd"][n], v)]
             if bad and all(v in (q2f(c["bnd"][n]["lo"]), q2f(c["bnd"][n]["hi"])) for n, v in bad):
                 return None, "optimiser-on-open-bound"
+            if not bad:
+                # a value ON a closed bound whose read-back (var = var_raw * var_factor) is off by rounding
+                m = re.search(r"needs to be [<>=]+ ([-+.\deinf]+), got: ([-+.\deinf]+)", call.exc or "")
+                if m:
+                    bound, got = float(m.group(1)), float(m.group(2))
+                    if abs(got - bound) <= 1e-9 * max(1.0, abs(bound)) and any(
+                            v in (q2f(c["bnd"][n]["lo"]), q2f(c["bnd"][n]["hi"])) for n, v in zip(names, args)):
+                        return None, "optimiser-on-bound (read-back rounding)"
             return ("error:in-box" if bad else "error:spurious"), None
         if call.exc_from == "optimiser":
             if not all(lo <= p <= hi for p, lo, hi in zip(call.p0, call.lo, call.hi)):
@@ -1029,13 +1040,15 @@ def trace_record(c, call, tail=4):
     return r
 
 
-def _scipy_chunk(task):
+def _scipy_chunk(task, progress=None):
     jname, idxs = task
     job = dict(_W["jobs"])[jname]
     pres = _W["pre"][jname]
     col = _Collect()
     out = dict(n=0, nontrivial=set(), samples=[], edges={}, viol_keys={}, aux=[], traces=[], nfev=0)
     for i in idxs:
+        if progress:
+            progress(i)
         c, ialts = parse_pre(pres[i])
         x, _y, _t = data_for(c, job["real"], 0)
         opts, desc, which = numeric_options(i, c, x)
@@ -1079,6 +1092,100 @@ def _scipy_chunk(task):
                                    "r2": call.r2})
     out["violations"] = col.violations
     return out
+
+
+
+# ---------------------------------------------------------------------------
+# the scipy runs are executed by worker processes that can be killed: with non-finite
+# Jacobians LAPACK (dbdsqr below numpy.linalg.lstsq, used by 'dogbox') may never return
+
+
+def _sc_worker(wid, conn, hb):
+    while True:
+        task = conn.recv()
+        if task is None:
+            return
+        jname, idxs = task
+
+        def progress(i):
+            hb[2 * wid + 1], hb[2 * wid] = i, time.time()
+
+        res = _scipy_chunk((jname, idxs), progress)
+        hb[2 * wid] = 0.0
+        conn.send(res)
+
+
+def robust_scipy_map(chunks, nproc, limit):
+    """Generator over the results of _scipy_chunk for every chunk.  Every worker is fed through
+    its own pipe (no shared queue that a killed process could leave locked).  A fit that does not
+    return within `limit` seconds is abandoned: its worker is killed and the rest of its chunk is
+    run again without that configuration.  Abandoned items end up in robust_scipy_map.hung."""
+    import multiprocessing as mp
+    from collections import deque
+    from multiprocessing.connection import wait
+
+    ctx = mp.get_context("fork")
+    hb = ctx.Array("d", 2 * nproc, lock=False)
+    todo = deque((jname, list(idxs)) for jname, idxs in chunks)
+    procs, conns, busy = [None] * nproc, [None] * nproc, {}
+    hung = []
+
+    def spawn(w):
+        parent, child = ctx.Pipe()
+        hb[2 * w] = 0.0
+        p = ctx.Process(target=_sc_worker, args=(w, child, hb), daemon=True)
+        p.start()
+        child.close()
+        procs[w], conns[w] = p, parent
+
+    def abandon(w):
+        jname, idxs = busy.pop(w)
+        i = int(hb[2 * w + 1])
+        procs[w].terminate()
+        procs[w].join(5)
+        conns[w].close()
+        hung.append((jname, i))
+        rest = [k for k in idxs if k != i] if i in idxs else []
+        if rest:
+            todo.appendleft((jname, rest))
+        spawn(w)
+
+    for w in range(nproc):
+        spawn(w)
+    try:
+        while todo or busy:
+            for w in range(nproc):
+                if w not in busy and todo:
+                    busy[w] = todo.popleft()
+                    hb[2 * w + 1], hb[2 * w] = busy[w][1][0], time.time()
+                    conns[w].send(busy[w])
+            ready = wait([conns[w] for w in busy], timeout=0.5)
+            for conn in ready:
+                w = conns.index(conn)
+                try:
+                    res = conn.recv()
+                except (EOFError, OSError):
+                    abandon(w)      # the worker died
+                    continue
+                del busy[w]
+                yield res
+            now = time.time()
+            for w in list(busy):
+                t = hb[2 * w]
+                if (t and now - t > limit) or not procs[w].is_alive():
+                    abandon(w)
+    finally:
+        for w in range(nproc):
+            try:
+                if w not in busy:
+                    conns[w].send(None)
+            except (OSError, ValueError):
+                pass
+        for p in procs:
+            p.join(1)
+            if p.is_alive():
+                p.terminate()
+        robust_scipy_map.hung = hung
 
 
 # ---------------------------------------------------------------------------
@@ -1199,17 +1306,16 @@ def run(pid, tier, seed, replay=None):
         sc_tasks = []
         for name, _job in jobs:
             idx = list(range(len(pres[name])))
-            step = max(20, len(idx) // (nproc * 3) + 1)
+            step = 60
             sc_tasks += [(name, idx[i:i + step]) for i in range(0, len(idx), step)]
         t0 = time.time()
         disc_total, edges, aux, traces = {}, {}, [], []
-        adv_n = adv_skipped = drift_n = sc_n = nfev = 0
+        adv_n = adv_skipped = sc_n = nfev = 0
         viol_counts = {}
         with mp.get_context("fork").Pool(nproc) as pool:
             for res in pool.imap_unordered(_adv_chunk, adv_tasks):
                 adv_n += res["n"]
                 adv_skipped += res["skipped"]
-                drift_n += res["drift"]
                 rep.nontrivial |= res["nontrivial"]
                 for s in res["samples"]:
                     rep.sample(s, cap=3)
@@ -1222,29 +1328,34 @@ def run(pid, tier, seed, replay=None):
                 for msg in res["drift_msgs"]:
                     rep.drift_msg(msg)
             print("adversary: %d behaviours replayed on the real code (%.1fs)" % (adv_n, time.time() - t0))
-            t0 = time.time()
-            for res in pool.imap_unordered(_scipy_chunk, sc_tasks):
-                sc_n += res["n"]
-                nfev += res["nfev"]
-                rep.nontrivial |= res["nontrivial"]
-                for s in res["samples"]:
-                    rep.sample(s, cap=5)
-                for k, v in res["edges"].items():
-                    edges[k] = edges.get(k, 0) + v
-                for k, v in res["viol_keys"].items():
-                    viol_counts[k] = viol_counts.get(k, 0) + v
-                for key, what, rp in res["violations"]:
-                    rep.violation(key, what, rp)
-                aux += res["aux"]
-                traces += res["traces"]
-            print("scipy: %d configurations fitted with the real optimiser, %d curve evaluations (%.1fs)"
-                  % (sc_n, nfev, time.time() - t0))
+        t0 = time.time()
+        for res in robust_scipy_map(sc_tasks, nproc, limit=90.0 if thorough else 45.0):
+            sc_n += res["n"]
+            nfev += res["nfev"]
+            rep.nontrivial |= res["nontrivial"]
+            for s in res["samples"]:
+                rep.sample(s, cap=5)
+            for k, v in res["edges"].items():
+                edges[k] = edges.get(k, 0) + v
+            for k, v in res["viol_keys"].items():
+                viol_counts[k] = viol_counts.get(k, 0) + v
+            for key, what, rp in res["violations"]:
+                rep.violation(key, what, rp)
+            aux += res["aux"]
+            traces += res["traces"]
+        hung = getattr(robust_scipy_map, "hung", [])
+        if hung:
+            edges["(optimiser did not return: LAPACK on a non-finite Jacobian)"] = len(hung)
+            rep.note("scipy did not return within the time limit for %d configurations (abandoned): %s"
+                     % (len(hung), hung[:5]))
+        print("scipy: %d configurations fitted with the real optimiser, %d curve evaluations (%.1fs)"
+              % (sc_n, nfev, time.time() - t0))
         rep.traces += adv_n - adv_skipped + sc_n
         rep.evaluations += adv_n + sc_n
         # ---- trace validation
         t0 = time.time()
         traces.sort(key=lambda t: (t[0], t[1]))
-        cap = 8100 if thorough else 1350
+        cap = 16200 if thorough else 1350
         n_recorded = len(traces)
         if len(traces) > cap:
             keep = sorted(rng.sample(range(len(traces)), cap))
